@@ -18,8 +18,8 @@ META = dict(
         "qucumber/nn_states: importance_sampling_numerator / denominator, psi, rho(expand=False), probability",
         "qucumber/utils/cplx.py: elementwise_division, elementwise_mult, make_complex, real",
     ],
-    bounds=dict(quick="positive (2,2),(3,2); complex (2,2),(3,2); mixed (2,1,1),(2,2,2); all basis states weighted exactly; c = 1..n, open and periodic; absolute on/off",
-                thorough="additionally positive/complex (4,3),(5,2) [complex (5,2) without Y decomposition limits], mixed (3,1,1),(3,2,2)"),
+    bounds=dict(quick="positive (2,2),(3,2); complex (2,2),(3,2),(4,3); mixed (1,1,1),(2,1,1),(2,2,2),(3,2,1); all basis states weighted exactly; c = 1..n, open and periodic; absolute on/off",
+                thorough="additionally positive (4,3),(5,2); complex (1,2),(5,2),(5,4); mixed (3,2,2),(4,1,1),(4,2,2),(5,1,1)"),
     outside=["num_visible > 5", "sampling error of Monte-Carlo estimates (the basis is weighted exactly)", "floating point"],
     stubs=["torch -> vf.symtorch"],
     assumptions=["Z magnetisation / ZZ interaction use the library's documented spin map to_pm1 (sigma=0 -> -1, sigma=1 -> +1); X and Y are the standard Pauli matrices in the (sigma=0, sigma=1) ordering (same convention as the rotation dictionary, C04)"],
@@ -116,9 +116,11 @@ def scenario(B, G, kind, n, h, a=None):
 
 
 def jobs(tier):
-    cfg = [("positive", 2, 2, None), ("positive", 3, 2, None), ("complex", 2, 2, None), ("complex", 3, 2, None), ("mixed", 2, 1, 1), ("mixed", 2, 2, 2)]
+    cfg = [("positive", 2, 2, None), ("positive", 3, 2, None), ("complex", 2, 2, None), ("complex", 3, 2, None), ("complex", 4, 3, None),
+           ("mixed", 1, 1, 1), ("mixed", 2, 1, 1), ("mixed", 2, 2, 2), ("mixed", 3, 2, 1)]
     if tier != "quick":
-        cfg += [("positive", 4, 3, None), ("positive", 5, 2, None), ("complex", 4, 3, None), ("complex", 5, 2, None), ("mixed", 3, 1, 1), ("mixed", 3, 2, 2), ("complex", 1, 2, None), ("mixed", 1, 1, 1)]
+        cfg += [("positive", 4, 3, None), ("positive", 5, 2, None), ("complex", 1, 2, None), ("complex", 5, 2, None), ("complex", 5, 4, None),
+                ("mixed", 3, 2, 2), ("mixed", 4, 1, 1), ("mixed", 4, 2, 2), ("mixed", 5, 1, 1)]
     return [dict(name="%s-%d-%d-%s" % (k, n, h, a), module="checks.c08", scenario="scenario", kwargs=dict(kind=k, n=n, h=h, a=a), opts=dict(timeout_ms=120000)) for k, n, h, a in cfg]
 
 
